@@ -6,14 +6,14 @@ from common import run_driver
 RULE = ('assignment histories on a CsrMatrixBuilder (exhaustive: every sequence of length <= 3 over all cells x values {1,-1,2} '
         'for the small shapes listed in exhaustive_streams; random: shapes up to 6x7 incl. 0-width/0-height, up to 40 assignments, '
         'out-of-shape attempts) are read back through ImmutableCsrMatrix cell by cell, row by row and by col_indices_of_val '
-        'for q in {0,1,-1,2,7}, at every coordinate in -(R+3)..R+2 x -(C+3)..C+2 (so every negative alias and both overshoots); '
+        'for q in {0,1,-1,2,7,200000,200001,-200001} (stored values include those large neighbours), at every coordinate in -(R+3)..R+2 x -(C+3)..C+2 (so every negative alias and both overshoots); '
         'snapshot histories (a matrix taken from the builder after k assignments must keep reading like the dense matrix after k '
         'assignments while the builder goes on, and a matrix given caller-owned numpy arrays must not change when the caller '
         'scribbles over them afterwards); hand-given well-formed CSR triples for int/float/bool dtypes. '
         'Every read is compared with the Lean model (errors compared as "raises"). A history is non-trivial when it overwrites '
         'a cell, inserts a smaller column after a larger one in the same row, or touches the first/last row; distinct by (shape, ops).')
 
-QUERY_VALUES = [0, 1, -1, 2, 7]
+QUERY_VALUES = [0, 1, -1, 2, 7, 200000, 200001, -200001]       # incl. large neighbours: equality must be exact
 
 
 def _impl():
@@ -219,7 +219,7 @@ def random_wf_csr(rng, dtype):
         cols = sorted(rng.sample(range(C), rng.randrange(0, C + 1))) if C else []
         for c in cols:
             col.append(c)
-            dat.append(1 if dtype == 'bool' else rng.choice([1, -1, 2, 3, 7]))
+            dat.append(1 if dtype == 'bool' else rng.choice([1, -1, 2, 3, 7, 200000, 200001, -200001]))
         indptr.append(len(col))
     return ('csr', {'indptr': indptr, 'col': col, 'dat': dat, 'shape': [R, C], 'dtype': dtype})
 
@@ -257,7 +257,7 @@ def run(ctx):
                 r, c = rng.choice([-2, -1, R, R + 1, rng.randrange(0, R + 1)]), rng.choice([-1, C, C + 2, rng.randrange(0, C + 1)])
             else:
                 r, c = (rng.randrange(R) if R else 0), (rng.randrange(C) if C else 0)
-            ops.append((r, c, rng.choice([1, -1, 2, 3, 7])))
+            ops.append((r, c, rng.choice([1, -1, 2, 3, 7, 200000, 200001, -200000, -200001])))
         cases.append(((R, C), ops))
     for i in range(0, len(cases), 1000):
         evaluate(ctx, cases[i:i + 1000], 'random.histories')
